@@ -52,7 +52,7 @@ def _enum_variants(text, name):
     for v in out:
         mm = re.match(r"\s*(\w+)", v)
         if mm:
-            fields = re.findall(r"(\w+)\s*:", v[mm.end():])
+            fields = re.findall(r"(\w+)\s*:(?!:)", v[mm.end():])
             res.append((mm.group(1), fields))
     return res
 
@@ -443,7 +443,7 @@ def q_c05_query_next(bodies):
                             rng = "(CE_QueryRange_KeyAuthor (C_tuple2 RTABLE RANGE) AF C_None)"
                         else:
                             rng = "(CE_QueryRange_KeyAuthor (C_tuple2 RTABLE RANGE) AF (C_Some (C_sel C_None)))"
-                        QA = "(addr SELF 1)"
+                        QA = "(addr SELF %s)" % ex.ksym("1")
                         heap0 = {("SELF", "0"): rng, ("SELF", "2"): ex._konst("0_u64"), ("SELF", "3"): ex._konst("0_u64"),
                                  (QA, str(qf.index("limit"))): "(C_Some LIM)" if has_limit else "C_None",
                                  (QA, str(qf.index("offset"))): "OFF", (QA, str(qf.index("include_empty"))): "INC",
